@@ -41,6 +41,8 @@ def run(ctx):
             ctx.fail_input('crash leaves a bad fail file: ' + what,
                            'after SIGKILL during saveFailFile the discovery glob finds a file that is not the complete fail file',
                            {'cmd': (v.get('replay') if isinstance(v, dict) and v.get('replay') else cmd), 'violation': v})
+        if str(cr.get('cross_device_tmp', '')).startswith('unavailable'):
+            ctx.notes.append('cross-device crash phase not run: ' + str(cr.get('cross_device_tmp')))
         for t in cr.get('trace_failures') or []:
             ctx.broken('correspondence', 'system calls of saveFailFile are not the expected protocol: ' + str(t)[:200], str(t))
         for t in cr.get('kill_inconsistent') or []:
@@ -57,7 +59,7 @@ def run(ctx):
                 os.remove(f'{vlib.COQ}/{vfile}')
             except OSError:
                 pass
-        crash_stats.append({k: cr.get(k) for k in ('sizes', 'inject_semantics', 'boundary_crash_point', 'cases')})
+        crash_stats.append({k: cr.get(k) for k in ('sizes', 'inject_semantics', 'boundary_crash_point', 'cases', 'cross_device_tmp', 'cross_device_kills')})
     stats['crash'] = crash_stats
 
     ctx.partial.append('rename(2) atomicity and O_EXCL creation are single steps of the model: trusted to the kernel, exercised (not proved) by killing the real process at every system call')
